@@ -16,8 +16,12 @@ fn generate_hex_from_segment(segment: &[u8]) -> Result<String, Error> {
         records.push(Record::ExtendedSegmentAddress(0x0));
 
         for (i, chunk) in segment.chunks(16).enumerate() {
+            // a record offset is 16 bit: every further 64 KiB block needs its own base address
+            if i > 0 && i % 4096 == 0 {
+                records.push(Record::ExtendedLinearAddress((i / 4096) as u16));
+            }
             records.push(Record::Data {
-                offset: i as u16 * 16,
+                offset: (i % 4096) as u16 * 16,
                 value: chunk.to_vec(),
             });
         }
